@@ -14,7 +14,7 @@ from ..impl import hexlist
 def run(chk):
     chk.prove()
     r = gen.rng(chk.seed, "C10")
-    n_cases = 40 if chk.tier == "quick" else 300
+    n_cases = 40 if chk.tier == "quick" else 1500
     pterms, fterms = [], []
     for i in range(n_cases):
         ubm, s = fa.gen_ubm(r)
